@@ -28,6 +28,9 @@
  * - `A set K V fail` / `A replace K V fail` / `A get K fail`: the call on a key that has no native key yet, with the lazy
  *   pthread_key_create failing (N= shows `kcfail`); `A current fail2` / `fail3`: p_uthread_current of a thread without a stored
  *   handle with the next 2 / 3 pthread_key_create calls failing (NULL; the PUThreadBase block takes a handle id as above).
+ * - `A set K V ssfail` / `A replace K V ssfail`: the call with the native pthread_setspecific reporting an error (N= shows `ssfail`).
+ * - `T start fail2`: the proxy of T runs with both of its lazy pthread_key_create calls failing (nothing stored in the library
+ *   slot: puthread.c `is_stored == FALSE`); `T return` then includes the proxy's own p_uthread_unref; p_uthread_exit in T returns.
  * - `A join H fail`: p_uthread_join with the native pthread_join reporting an error (ESRCH, nothing is joined).
  * - `A misc` calls p_uthread_ideal_count / p_uthread_yield / p_uthread_current_id in thread A (answer `ok`).
  * - `A prio H P` calls p_uthread_set_priority on a library-created thread that has not ended (no effect on handles).
@@ -156,6 +159,7 @@ typedef struct {
 } Op;
 typedef struct {
 	int state, foreign, round, pending, arm_cas, at_cas, cas_result;
+	int unstored;                                   /* started by `start fail2`: the library slot is empty, the proxy holds the reference */
 	int joining, join_h;                            /* inside the p_uthread_join of `jbegin` (2: it came back early) */
 	volatile int early;                             /* `create … x`: 1 = runs into the proxy at once, 2 = reached the spinlock */
 	pthread_t self;
@@ -219,10 +223,12 @@ int __wrap_pthread_key_create (pthread_key_t *key, void (*d) (void *)) {
 	return r;
 }
 int __wrap_pthread_key_delete (pthread_key_t key) { char b[24]; nat ("kd%s", show_n (nat_of_key[key], b)); return __real_pthread_key_delete (key); }
+static int fail_ss;                                     /* the library's next store under a user key reports an error */
 int __wrap_pthread_setspecific (pthread_key_t key, const void *v) {
 	int id = nat_of_key[key];
 	char b[24];
 	show_n (id, b);
+	if (fail_ss && !nat_islib[id]) { fail_ss = 0; nat ("ssfail%s", b); return ENOMEM; }
 	if (nat_islib[id]) nat (v ? "ss%s:H" : "ss%s:0", b); else nat ("ss%s:%lu", b, (unsigned long) (uintptr_t) v);
 	return __real_pthread_setspecific (key, v);
 }
@@ -392,12 +398,13 @@ static void exec_op (Slot *s) {
 		snprintf (o->res, 48, "T%d,H%d", t, h);
 		break; }
 	case O_SET: case O_REPLACE: case O_GET:
-		fail_kc = o->jfail;                             /* `… fail`: the lazy pthread_key_create of this call fails */
-		watch_all = o->jfail; nop_blk = 0;
+		fail_kc = o->jfail == 1;                        /* `… fail`: the lazy pthread_key_create of this call fails */
+		fail_ss = o->jfail == 2;                        /* `… ssfail`: its pthread_setspecific fails */
+		watch_all = o->jfail == 1; nop_blk = 0;
 		tls_call (o->kind, kptr[o->k], o->v, o->res);
 		watch_all = 0;
-		if (fail_kc) DIE ("scripted pthread_key_create failure was not consumed");
-		if (o->jfail && nop_blk > 0) snprintf (o->res, 48, "leak:%d", nop_blk);   /* the failed call kept a block */
+		if (fail_kc || fail_ss) DIE ("scripted native failure was not consumed");
+		if (o->jfail == 1 && nop_blk > 0) snprintf (o->res, 48, "leak:%d", nop_blk);   /* the failed call kept a block */
 		break;
 	case O_RACE:
 		while (!race_go) ;
@@ -427,7 +434,7 @@ static void exec_op (Slot *s) {
 		snprintf (o->res, 48, "H%d", tag_handle (p, my_slot, 0, 0, 0));
 		break; }
 	case O_EXIT:
-		if (s->foreign || my_slot == 0) {
+		if (s->foreign || my_slot == 0 || s->unstored) {
 			PUThread *p = p_uthread_current ();
 			tag_handle (p, my_slot, 0, 0, 0);
 			p_uthread_exit ((pint) o->code);        /* returns: not one of ours */
@@ -604,6 +611,15 @@ static void run_case (char **lines, int n) {
 			dispatch (a, &o);
 			if (o.cmode == 1) { Slot *c = &slots[last_created_slot]; swait (&c->done); c->state = RUNNING; kpub[0] = 1; }
 			answer (o.res, "", 1);
+		} else if (!strcmp (op, "start") && nw == 3 && !strcmp (w[2], "fail2")) {
+			/* the proxy's p_uthread_set_local and its read-back both fail to make the library key's native key */
+			int pend0 = 0;
+			for (int t = 1; t < nextT; t++) if (slots[t].pending && (slots[t].pend_op.named || slots[t].pend_op.kind == O_CURRENT)) pend0 = 1;
+			if (s->state != CREATED || kpub[0] || pend0) { bad (); continue; }
+			fail_kc = 2;
+			sem_post (&s->start_gate); swait (&s->done); s->state = RUNNING; s->unstored = 1;
+			if (fail_kc) DIE ("scripted pthread_key_create failures were not consumed by the proxy");
+			answer ("-", "", 1);
 		} else if (!strcmp (op, "start") && nw == 2) {
 			if (s->state != CREATED) { bad (); continue; }
 			sem_post (&s->start_gate); swait (&s->done); s->state = RUNNING; kpub[0] = 1;
@@ -612,6 +628,11 @@ static void run_case (char **lines, int n) {
 			int k = atoi (w[2]);
 			if (!running || !key_ok (k)) { bad (); continue; }
 			o.kind = !strcmp (op, "set") ? O_SET : O_REPLACE; o.k = k; o.v = strtoul (w[3], NULL, 10);
+			dispatch (a, &o); kpub[k] = 1; answer ("-", "", 1);
+		} else if ((!strcmp (op, "set") || !strcmp (op, "replace")) && nw == 5 && !strcmp (w[4], "ssfail")) {
+			int k = atoi (w[2]);
+			if (!running || !key_ok (k)) { bad (); continue; }
+			o.kind = !strcmp (op, "set") ? O_SET : O_REPLACE; o.k = k; o.v = strtoul (w[3], NULL, 10); o.jfail = 2;
 			dispatch (a, &o); kpub[k] = 1; answer ("-", "", 1);
 		} else if ((!strcmp (op, "set") || !strcmp (op, "replace")) && nw == 5 && !strcmp (w[4], "fail")) {
 			int k = atoi (w[2]);
@@ -643,11 +664,12 @@ static void run_case (char **lines, int n) {
 			if (!running) { bad (); continue; }
 			o.kind = O_EXIT; o.code = strtol (w[2], NULL, 10);
 			dispatch (a, &o); kpub[0] = 1;                       /* library thread: `done` comes from the gate destructor */
-			if (!(s->foreign || a == 0)) { s->state = FINISHED; strcpy (o.res, "-"); }
+			if (!(s->foreign || a == 0 || s->unstored)) { s->state = FINISHED; strcpy (o.res, "-"); }
 			answer (o.res, "", 1);
 		} else if (!strcmp (op, "return") && nw == 2) {
 			if (!running || a == 0) { bad (); continue; }
 			o.kind = O_RETURN; s->op = o; sem_post (&s->cmd); swait (&s->done); s->state = FINISHED;
+			if (s->unstored) for (int h = 0; h < nextH; h++) if (hthread[h] == a && hours[h]) hthreadref[h] = 0;   /* the proxy's unref */
 			answer ("-", "", 1);
 		} else if (!strcmp (op, "end") && nw == 2) {
 			if (s->state != FINISHED) { bad (); continue; }
